@@ -1,0 +1,60 @@
+//! Verification hooks.
+//!
+//! This module is compiled only with `--cfg kahflane_turdb_verif`. It holds a
+//! process-global callback table that is empty (every hook is a no-op) until an
+//! external simulation harness installs callbacks. Nothing in the shipped build
+//! refers to it.
+
+use std::sync::atomic::{AtomicUsize, Ordering};
+
+/// `crash_point(kind, addr, page)`: called before a mapped page is handed out
+/// for mutation. `addr` is the base address of the mapping.
+pub type CrashPointFn = fn(kind: u8, addr: usize, page: u32);
+/// `knob(name)`: lets the harness override a tuning value.
+pub type KnobFn = fn(name: &str) -> Option<u64>;
+/// `probe(name)`: reach counter for a rare branch.
+pub type ProbeFn = fn(name: &'static str);
+
+static CRASH_POINT: AtomicUsize = AtomicUsize::new(0);
+static KNOB: AtomicUsize = AtomicUsize::new(0);
+static PROBE: AtomicUsize = AtomicUsize::new(0);
+
+pub const KIND_PAGE_MUT: u8 = b'P';
+
+pub fn install(crash_point: Option<CrashPointFn>, knob: Option<KnobFn>, probe: Option<ProbeFn>) {
+    CRASH_POINT.store(crash_point.map_or(0, |f| f as usize), Ordering::SeqCst);
+    KNOB.store(knob.map_or(0, |f| f as usize), Ordering::SeqCst);
+    PROBE.store(probe.map_or(0, |f| f as usize), Ordering::SeqCst);
+}
+
+#[inline]
+pub fn crash_point(kind: u8, addr: usize, page: u32) {
+    let f = CRASH_POINT.load(Ordering::Relaxed);
+    if f != 0 {
+        // SAFETY: the only non-zero value ever stored is a valid `CrashPointFn`.
+        let f: CrashPointFn = unsafe { std::mem::transmute(f) };
+        f(kind, addr, page);
+    }
+}
+
+#[inline]
+pub fn knob(name: &str) -> Option<u64> {
+    let f = KNOB.load(Ordering::Relaxed);
+    if f != 0 {
+        // SAFETY: the only non-zero value ever stored is a valid `KnobFn`.
+        let f: KnobFn = unsafe { std::mem::transmute(f) };
+        f(name)
+    } else {
+        None
+    }
+}
+
+#[inline]
+pub fn probe(name: &'static str) {
+    let f = PROBE.load(Ordering::Relaxed);
+    if f != 0 {
+        // SAFETY: the only non-zero value ever stored is a valid `ProbeFn`.
+        let f: ProbeFn = unsafe { std::mem::transmute(f) };
+        f(name);
+    }
+}
